@@ -2062,8 +2062,10 @@ def act_gsymbol_reference(context, nodes):
 def act_gsymbol_string_recognizer(context, nodes):
     recognizer = act_recognizer_str(context, nodes)
 
+    # Terminal is named by its text where new lines and tabs are escaped, so
+    # the reference must use the same name.
     terminal_ref = Reference(
-        Location(context), recognizer.name, context.extra.imported_with
+        Location(context), escape(recognizer.name), context.extra.imported_with
     )
 
     if terminal_ref.name not in context.extra.inline_terminals:
